@@ -539,6 +539,122 @@ def stepCore (cfg : Cfg) (s : State) : Op → Except Err State
       (if u = r then [] else [.send (dst.asset g) (U u) E n, .send (dst.asset g) E (U r) n])
     run s fl
 
+/-- flow of the refund of an outgoing bridge call -/
+def refundFlow (cfg : Cfg) (c : Nat) (call : OutCall) : Except Err (List Prim) := do
+  let fl1 ← tokensFlow cfg c call.tokens (fun k g n => bridgeCallRefundCoin k g c (U call.refund) n)
+  let fl2 ← if call.fromMsg then pure [] else refundToEvmFlow cfg call.refund call.tokens
+  pure (fl1 ++ fl2)
+
+/-- **the ledger flow of an operation**: the list of bank / ERC-20 primitives a successful `stepCore cfg s op` runs on
+the ledger (`Proofs.C04.stepCore_flow`); operations that only touch records have the empty flow.  Statements about what
+an operation does to balances are statements about this list. -/
+def opFlow (cfg : Cfg) (s : State) : Op → Except Err (List Prim)
+  | .deposit c g u n toErc => do
+    let some k := bridged cfg g c | .error .notFound
+    let fl1 := bridgeTokenToBaseCoin k g c (U u) n
+    if toErc then
+      (match pairOk cfg g with
+       | some _ => pure (fl1 ++ convertCoin k g (U u) (U u) n)
+       | none => .error .disabled)
+    else pure fl1
+  | .send c g u n fee => do
+    let some k := bridged cfg g c | .error .notFound
+    pure (baseCoinToBridgeToken k g c (U u) (n + fee))
+  | .xsend c g u n fee => do
+    let some kp := cfg.kind g | .error .notFound
+    let some k := bridged cfg g c | .error .notFound
+    pure (precompileTokenIn kp g (U u) (n + fee) ++ baseCoinToBridgeToken k g c (U u) (n + fee))
+  | .vsend c g u n fee => do
+    let some k := bridged cfg g c | .error .notFound
+    pure (valueIn g (U u) (n + fee) ++ baseCoinToBridgeToken k g c (U u) (n + fee))
+  | .xincfee c _ u g n => do
+    let some kp := cfg.kind g | .error .notFound
+    let some k := bridged cfg g c | .error .notFound
+    pure (precompileTokenIn kp g (U u) n ++ feeToBridgeDenom k g c (U u) n ++ addBridgeFee k g c (U u) n)
+  | .cancel c id u => do
+    let some (tx, _) := extract (·.id == id) (s.chains c).pool | .error .notFound
+    let some k := bridged cfg tx.g c | .error .notFound
+    let tot := tx.amount + tx.fee
+    let fl1 := bridgeTokenToBaseCoin k tx.g c (U u) tot
+    if tx.relation then
+      (match pairOk cfg tx.g with
+       | some _ => pure (fl1 ++ convertCoin k tx.g (U u) (U u) tot)
+       | none => .error .disabled)
+    else pure fl1
+  | .incfee c _ u g n => do
+    let some k := bridged cfg g c | .error .notFound
+    pure (addBridgeFee k g c (U u) n)
+  | .batch .. => pure []
+  | .executed .. => pure []
+  | .btimeout .. => pure []
+  | .bcout c u _ tokens pre => do
+    let flIn ← if pre then pairsFlow cfg tokens (fun k g n => convertERC20 k g (U u) (U u) n) else pure []
+    let flOut ← tokensFlow cfg c tokens (fun k g n => baseCoinToBridgeToken k g c (U u) n)
+    pure (flIn ++ flOut)
+  | .bcresult c nonce success => do
+    let some (call, _) := extract (·.nonce == nonce) (s.chains c).calls | .error .notFound
+    if success then pure [] else refundFlow cfg c call
+  | .bctimeout c nonce => do
+    let some (call, _) := extract (·.nonce == nonce) (s.chains c).calls | .error .notFound
+    refundFlow cfg c call
+  | .bcin c to tokens => do
+    let fl1 ← tokensFlow cfg c tokens (fun k g n => bridgeTokenToBaseCoin k g c (U to) n)
+    let fl2 ← pairsFlow cfg tokens (fun k g n => convertCoin k g (U to) (U to) n)
+    pure (fl1 ++ fl2)
+  | .bcinfail c r tokens => do
+    let fl1 ← tokensFlow cfg c tokens (fun k g n =>
+      bridgeTokenToBaseCoin k g c badContract n ++ [.send (.base g) badContract (U r) n])
+    let fl2 ← tokensFlow cfg c tokens (fun k g n => baseCoinToBridgeToken k g c (U r) n)
+    pure (fl1 ++ fl2)
+  | .convertCoin g u r n => do
+    let some k := pairOk cfg g | .error .disabled
+    pure (convertCoin k g (U u) (U r) n)
+  | .convertERC20 g u r n => do
+    let some k := pairOk cfg g | .error .disabled
+    pure (convertERC20 k g (U u) (U r) n)
+  | .convertDenom g u r n src dst => do
+    let some k := cfg.kind g | .error .notFound
+    let dst := if okDen cfg g dst then dst else .base
+    pure (convertDenom k g (U u) n src dst ++
+      (if u = r then [] else [.send (dst.asset g) (U u) E n, .send (dst.asset g) E (U r) n]))
+
+/-- **what an operation says it moves**: the change of the holdings of user `u'` in token group `g'` (base coin, bridge
+denominations and ERC-20 together) that the operation states, read in the pre-state — the sender of a transfer pays
+amount + fee, a cancel / refund gives back exactly what the record holds, a fee increase costs the added fee, a
+conversion moves the amount from sender to receiver, building / executing / timing out a batch moves nothing -/
+def stated (s : State) (op : Op) (u' g' : Nat) : Int :=
+  let one (g u n : Nat) : Int := if g = g' ∧ u = u' then (n : Int) else 0
+  let many (u : Nat) (ts : List (Nat × Nat)) : Int := if u = u' then (tokensValue g' ts : Int) else 0
+  match op with
+  | .deposit _ g u n _ => one g u n
+  | .send _ g u n fee => - one g u (n + fee)
+  | .xsend _ g u n fee => - one g u (n + fee)
+  | .vsend _ g u n fee => - one g u (n + fee)
+  | .incfee _ _ u g n => - one g u n
+  | .xincfee _ _ u g n => - one g u n
+  | .cancel c id u =>
+    match extract (·.id == id) (s.chains c).pool with
+    | some (tx, _) => one tx.g u (tx.amount + tx.fee)
+    | none => 0
+  | .batch .. => 0
+  | .executed .. => 0
+  | .btimeout .. => 0
+  | .bcout _ u _ ts _ => - many u ts
+  | .bcresult c nonce success =>
+    if success then 0 else
+    match extract (·.nonce == nonce) (s.chains c).calls with
+    | some (call, _) => many call.refund call.tokens
+    | none => 0
+  | .bctimeout c nonce =>
+    match extract (·.nonce == nonce) (s.chains c).calls with
+    | some (call, _) => many call.refund call.tokens
+    | none => 0
+  | .bcin _ to ts => many to ts
+  | .bcinfail .. => 0
+  | .convertCoin g u r n => one g r n - one g u n
+  | .convertERC20 g u r n => one g r n - one g u n
+  | .convertDenom g u r n _ _ => one g r n - one g u n
+
 /-- operations on a chain outside `0 … nChains-1` are rejected (no such route) -/
 def step (cfg : Cfg) (s : State) (op : Op) : Except Err State :=
   match op.chain? with
